@@ -18,6 +18,7 @@ var editKinds = []string{
 	"replay-other-direction-insert", "replay-other-direction-replace", "replay-own-auth", "replay-earlier-frame-replace",
 	"replay-old-session", "truncate-mid-frame", "truncate-at-boundary", "append-garbage-short", "append-garbage-frame",
 	"insert-garbage-frame", "zero-frame", "insert-byte", "delete-byte", "none",
+	"replay-pre-jump-frame", "replay-pre-jump-frame",
 }
 
 func framesOf(stream []byte) [][]byte {
@@ -88,6 +89,22 @@ func TestStreamEdits(t *testing.T) {
 		a, b, authAB, authBA := honestPair(t, env, lib.Key(ia), lib.Key(ib), eph[0], eph[1])
 		w, r := [2]*honestEnd{a, b}[dir], [2]*honestEnd{a, b}[1-dir]
 		ownAuth := [2][]byte{authAB, authBA}[dir]
+
+		// long-lived link: a few early frames (nonces 1..p, recorded by the adversary), then both ends of this direction
+		// are fast-forwarded to a counter just below a power-of-two boundary which the frames of the case cross
+		base, baseKind := drawBase(t, "base", len(expectedChunks(plan.writes))+4)
+		earlyFrames := [][]byte{ownAuth}
+		if nEarly := rapid.IntRange(0, 4).Draw(t, "earlyFrames"); base > uint64(nEarly)+1 {
+			for i := 0; i < nEarly; i++ {
+				if _, err := w.res.sc.Write(pattern(byte(dir)+5, plan.mode, plan.fill, i*refDataMax, refDataMax)); err != nil {
+					t.Fatalf("early write: %v", err)
+				}
+			}
+			earlyFrames = append(earlyFrames, framesOf(w.c.out.Drain())...)
+			jump(w, r, base)
+		} else {
+			base, baseKind = 1, "none"
+		}
 
 		// reverse direction traffic (captured, never delivered): material for cross-direction replay
 		for i := 0; i < revWrites; i++ {
@@ -174,6 +191,28 @@ func TestStreamEdits(t *testing.T) {
 					fs = append(fs[:i:i], append([][]byte{revFrames[src]}, fs[i:]...)...)
 				} else {
 					fs[i] = revFrames[src]
+				}
+			case "replay-pre-jump-frame":
+				// a frame recorded at the start of the session (nonce j), placed where the reader's counter, reduced
+				// modulo some power of two, equals j - if the case has such a position; else anywhere
+				type cand struct{ i, j int }
+				var cands []cand
+				for i := 0; i <= n; i++ {
+					for _, bits := range []uint{8, 16, 24, 31, 32, 40, 48, 56, 63} {
+						if j := (base + uint64(i)) & (1<<bits - 1); j < uint64(len(earlyFrames)) {
+							cands = append(cands, cand{i, int(j)})
+						}
+					}
+				}
+				i, j := pick("pre.at", n+1), pick("pre.src", len(earlyFrames))
+				if len(cands) > 0 && rapid.IntRange(0, 3).Draw(t, "pre.aligned") != 0 {
+					c := cands[pick("pre.cand", len(cands))]
+					i, j = c.i, c.j
+				}
+				if i == n || rapid.Bool().Draw(t, "pre.insert") {
+					fs = append(fs[:i:i], append([][]byte{earlyFrames[j]}, fs[i:]...)...)
+				} else {
+					fs[i] = earlyFrames[j]
 				}
 			case "replay-own-auth":
 				i := pick("auth.at", n+1)
@@ -287,20 +326,21 @@ func TestStreamEdits(t *testing.T) {
 			errClass = "decrypt"
 		}
 		cls := []string{"first-edited-frame:" + where, "error:" + errClass, fmt.Sprintf("edit-reached-reader:%v", reached),
-			fmt.Sprintf("frames:%s", bucket(m)), fmt.Sprintf("plaintext-after-error:%v", len(after) > 0)}
+			fmt.Sprintf("frames:%s", bucket(m)), fmt.Sprintf("plaintext-after-error:%v", len(after) > 0),
+			"counter-start:" + baseKind, "counter-crosses:" + crossed(base, m)}
 		for _, a := range applied {
 			cls = append(cls, "edit:"+a)
 			if reached {
 				cls = append(cls, "edit-reached:"+a)
 			}
 		}
-		lib.Case("TestStreamEdits", lib.FP(plan.writes, kinds, k, len(delivered), firstDiff(delivered, orig), plan.reads, dir), reached, cls...)
+		lib.Case("TestStreamEdits", lib.FP(plan.writes, kinds, k, len(delivered), firstDiff(delivered, orig), plan.reads, dir, base), reached, cls...)
 		if reached && lib.WantSample("TestStreamEdits") {
 			lib.Sample("TestStreamEdits", map[string]interface{}{"writes": plan.writes, "frames": m, "edits": applied, "intact leading frames": k,
 				"delivered bytes": len(delivered), "original bytes": len(orig), "plaintext read": len(got), "error": fmt.Sprint(err), "read after error": len(after)})
 		}
 
-		desc := fmt.Sprintf("writes=%v frames=%d edits=%v delivered=%d/%d bytes intact-leading-frames=%d reads=%v", plan.writes, m, applied, len(delivered), len(orig), k, plan.reads)
+		desc := fmt.Sprintf("writes=%v frames=%d counter-start=%d edits=%v delivered=%d/%d bytes intact-leading-frames=%d reads=%v", plan.writes, m, base, applied, len(delivered), len(orig), k, plan.reads)
 		if !bytes.Equal(got, expect) {
 			if len(got) > len(expect) && bytes.Equal(got[:len(expect)], expect) {
 				t.Fatalf("reader yielded %d bytes beyond the first edited frame (expected %d, got %d): %s", len(got)-len(expect), len(expect), len(got), desc)
@@ -324,12 +364,12 @@ func TestStreamEdits(t *testing.T) {
 			t.Fatalf("reads after the error yielded plaintext that is not the in-order continuation: %s", desc)
 		}
 		// counters
-		if c := w.res.sc.VerifC16SendCounter(); c != uint64(1+m) {
-			t.Fatalf("send counter %d after %d data frames: %s", c, m, desc)
+		if c := w.res.sc.VerifC16SendCounter(); c != base+uint64(m) {
+			t.Fatalf("send counter %d after %d data frames starting at counter %d: %s", c, m, base, desc)
 		}
 		if len(after) == 0 {
-			if c := r.res.sc.VerifC16RecvCounter(); c != uint64(1+k) {
-				t.Fatalf("receive counter %d, expected %d (1 auth + %d intact frames): %s", c, 1+k, k, desc)
+			if c := r.res.sc.VerifC16RecvCounter(); c != base+uint64(k) {
+				t.Fatalf("receive counter %d, expected %d (start %d + %d intact frames): %s", c, base+uint64(k), base, k, desc)
 			}
 		}
 	})
